@@ -132,10 +132,10 @@ zgscon(char *norm, SuperMatrix *L, SuperMatrix *U,
 	} else {
 
 	    /* Multiply by inv(U'). */
-	    sp_ztrsv("Upper", "Transpose", "Non-unit", L, U, &work[0], info);
+	    sp_ztrsv("Upper", "Conjugate transpose", "Non-unit", L, U, &work[0], info);
 
 	    /* Multiply by inv(L'). */
-	    sp_ztrsv("Lower", "Transpose", "Unit", L, U, &work[0], info);
+	    sp_ztrsv("Lower", "Conjugate transpose", "Unit", L, U, &work[0], info);
 	    
 	}
 
